@@ -29,6 +29,9 @@ type verifMirrorCase struct {
 	// Burst > 1: that many datagrams are queued for the mirror goroutine BEFORE it gets to run (one P while they are queued),
 	// and only then are they looked for on the wire, in order
 	Burst int `json:"burst"`
+	// Dispatch: the datagrams are handed to the real mirror DISPATCHER (what the workers' mirror queue feeds), which starts its one
+	// mirror worker itself; an unrecovered panic in it ends the process (the driver reports the case as failed)
+	Dispatch bool `json:"dispatch"`
 }
 
 type verifMirrorObs struct {
@@ -76,6 +79,19 @@ func verifMirror(raw []byte) interface{} {
 	var chS chan SFUDPMsg
 	panicked := make(chan string, 4)
 	startWorker := func() {
+		if c.Dispatch {
+			// the dispatcher reads the mirror options itself
+			if c.Proto == "ipfix" {
+				opts.IPFIXMirrorAddr, opts.IPFIXMirrorPort, opts.IPFIXMirrorWorkers = c.Dst, c.Port, 1
+				chI = make(chan IPFIXUDPMsg, 64)
+				go mirrorIPFIXDispatcher(chI)
+			} else {
+				opts.SFlowMirrorAddr, opts.SFlowMirrorPort, opts.SFlowMirrorWorkers = c.Dst, c.Port, 1
+				chS = make(chan SFUDPMsg, 64)
+				go mirrorSFlowDispatcher(chS)
+			}
+			return
+		}
 		if c.Proto == "ipfix" {
 			chI = make(chan IPFIXUDPMsg, 64)
 			go func(ch chan IPFIXUDPMsg) {
